@@ -25,11 +25,11 @@ RULE = ("random documents (regimes N/U/A, keys additionally drawn from the escap
 ASSUMPTIONS = ["virtual results (slices, collectors, name()) are skipped and counted",
                "keys with a backslash, a leading & * ! =, or the empty key are outside the statement's character list",
                "in regime N identity of shared scalars is ambiguous; coordinates (parent identity + ref) are compared too"]
-REACH = [("yamlpath/processor.py", 936, 1260, "key/index/anchor handlers (coordinates)"),
-         ("yamlpath/processor.py", 1833, 2242, "traversal / match-all (coordinates)"),
-         ("yamlpath/common/keywordsearches.py", 79, 340, "has_child"),
-         ("yamlpath/common/keywordsearches.py", 800, 900, "parent()"),
-         ("yamlpath/yamlpath.py", 974, 1017, "ensure_escaped / escape_path_section")]
+REACH = [("yamlpath/processor.py", "_get_nodes_by_key,_get_nodes_by_index,_get_nodes_by_anchor", "key/index/anchor handlers (coordinates)"),
+         ("yamlpath/processor.py", "_get_nodes_by_traversal,_get_nodes_by_match_all_unfiltered,_get_nodes_by_match_all_filtered", "traversal / match-all (coordinates)"),
+         ("yamlpath/common/keywordsearches.py", "has_child,_has_concrete_child,_has_anchored_child", "has_child"),
+         ("yamlpath/common/keywordsearches.py", "parent", "parent()"),
+         ("yamlpath/yamlpath.py", "ensure_escaped,escape_path_section", "ensure_escaped / escape_path_section")]
 SIZES = {"quick": 160000, "thorough": 2500000}
 REQUIRED_COUNTERS = ["contracts_evaluated", "requery_checked", "special_key_results"]
 SPECIAL = set(". / [ ] ( ) ' \" ^ $ %".split()) | {" "}
